@@ -131,13 +131,18 @@ NOARG = ["upper", "lower", "title", "capitalize", "swapcase", "casefold", "strip
          "isalpha", "isdigit", "isspace", "islower", "isupper", "expandtabs", "rsplit"]
 
 
-def rand_sub(rng, text):
+def rand_sub(rng, text, esc=False):
     r = rng.random()
     if text and r < 0.5:
         a = rng.randint(0, len(text) - 1)
         return text[a:a + rng.choice([1, 1, 2, 3])]
     if r < 0.6:
         return ""
+    if r < 0.68 and esc:
+        # (only for methods whose answer is not text: a TEXT answer containing an escape introducer is re-parsed by the
+        # wrapper's fmtstr(), which is outside the modelled scope, see ASSUMPTIONS)
+        # an argument that looks like terminal output: for a str METHOD it is ordinary characters, never parsed
+        return rng.choice(["\x1b[0m", "\x1b[31m" + (text[:1] or "h"), "\x9b1m", (text[-1:] or "d") + "\x1b[39m", "\x1b["])
     return rng.choice(SEPS + ["q", "zz"])
 
 
@@ -167,10 +172,11 @@ def rand_deleg(rng, text):
             a.append(rng.choice([0, 1, 2, -1]))
         return [m, a]
     if m in ("removeprefix", "removesuffix", "startswith", "endswith"):
-        p = rng.choice([text[:rng.randint(0, 3)], text[max(0, n - rng.randint(0, 3)):], rand_sub(rng, text)])
+        p = rng.choice([text[:rng.randint(0, 3)], text[max(0, n - rng.randint(0, 3)):],
+                        rand_sub(rng, text, esc=m in ("startswith", "endswith"))])
         return [m, [p]]
     if m in ("find", "rfind", "index", "rindex", "count"):
-        a = [rand_sub(rng, text)]
+        a = [rand_sub(rng, text, esc=True)]
         if rng.random() < 0.35:
             a.append(rng.randint(-2, n + 1))
             if rng.random() < 0.5:
@@ -190,7 +196,7 @@ def rand_deleg(rng, text):
             if rng.random() < 0.5:
                 tab.append([ord(ch), rng.choice(["X", "", "yz", None, ord("Q")])])
         return [m, [["table", sorted(tab, key=lambda kv: kv[0])]]]
-    return [m, [rand_sub(rng, text)]]
+    return [m, [rand_sub(rng, text, esc=(m == "__contains__"))]]
 
 
 REGEXES = [r",", r"\s+", r"a+", r"[ab]", r"b*", r"a|,", r"\n", r",\s*", r"x?", r"(?:ab)+", r"$", r"^", r"\b"]
